@@ -1,4 +1,4 @@
-// props: C02
+// props: C02 C15
 // mount: src/creator/directory_pack/schema/property.rs
 // C02.a: the width chosen for an integer column holds every value processed (arithmetic only, full domain, loop bounded by
 // the operand width => complete).  Two values stand for any number: Auto(max) is a running maximum.
@@ -58,4 +58,65 @@ fn k_c02_content_address_width() {
     assert!(fits_u(p as u64, pn) && fits_u(p2 as u64, pn) && fits_u(c as u64, cn) && fits_u(c2 as u64, cn));
     assert!(pn <= 2 && cn <= 4);
     kani::cover!(cn == 4);
+}
+
+// ---- the real Property::process / finalize on a one-value entry: the column of the finalized layout holds every value it was
+// ---- shown, immediate or deferred (Word), and a constant column keeps that very value as its default
+struct OneValue(Value);
+impl EntryTrait<&'static str, &'static str> for OneValue {
+    fn variant_name(&self) -> Option<MayRef<&'static str>> {
+        None
+    }
+    fn value<'a>(&'a self, _name: &&'static str) -> MayRef<'a, Value> {
+        MayRef::Borrowed(&self.0)
+    }
+    fn value_count(&self) -> PropertyCount {
+        PropertyCount::from(1u8)
+    }
+    fn set_idx(&mut self, _idx: EntryIdx) {}
+    fn get_idx(&self) -> Bound<EntryIdx> {
+        Vow::<EntryIdx>::default().bind()
+    }
+}
+
+// oblig: C02.a.process_signed kind=complete timeout=600 tier=quick
+#[kani::proof]
+#[kani::unwind(10)]
+fn k_c02_process_signed() {
+    let (a, b): (i64, i64) = kani::any();
+    let mut p = Property::<&'static str>::new_sint("x");
+    // one deferred value (a position known late: Word), one immediate value
+    p.process::<&'static str>(&OneValue(Value::SignedWord(Box::new(Word::from(a)))));
+    p.process::<&'static str>(&OneValue(Value::Signed(b)));
+    match p.finalize() {
+        layout::Property::SignedInt { size, default, name: _ } => {
+            let n = size as usize;
+            assert!(fits_s(a, n) && fits_s(b, n));
+            assert!(n == 1 || !fits_s(a, n - 1) || !fits_s(b, n - 1));
+            assert!(default.is_none() || (a == b && default == Some(a)));
+        }
+        _ => assert!(false),
+    }
+    kani::cover!(a == 128 && b == 0);
+    kani::cover!(a < 0);
+}
+
+// oblig: C02.a.process_unsigned kind=complete timeout=600 tier=quick
+#[kani::proof]
+#[kani::unwind(10)]
+fn k_c02_process_unsigned() {
+    let (a, b): (u64, u64) = kani::any();
+    let mut p = Property::<&'static str>::new_uint("x");
+    p.process::<&'static str>(&OneValue(Value::UnsignedWord(Box::new(Word::from(a)))));
+    p.process::<&'static str>(&OneValue(Value::Unsigned(b)));
+    match p.finalize() {
+        layout::Property::UnsignedInt { size, default, name: _ } => {
+            let n = size as usize;
+            assert!(fits_u(a, n) && fits_u(b, n));
+            assert!(n == 1 || !fits_u(a, n - 1) || !fits_u(b, n - 1));
+            assert!(default.is_none() || (a == b && default == Some(a)));
+        }
+        _ => assert!(false),
+    }
+    kani::cover!(a > 0xffff_ffff);
 }
